@@ -83,7 +83,69 @@ def validate_evidence(path: str) -> str | None:
     return None
 
 
-def run(check_id: str, tier: str, seed: int, workers: int) -> int:
+def executable_lines(path: str) -> set[int]:
+    with open(path) as fh:
+        code = compile(fh.read(), path, "exec")
+    lines: set[int] = set()
+    stack = [code]
+    while stack:
+        c = stack.pop()
+        if c.co_flags & 0x1:  # CO_OPTIMIZED: function bodies only (module/class level runs at import time)
+            lines.update(ln for _, _, ln in c.co_lines() if ln is not None and ln != c.co_firstlineno)
+        stack.extend(k for k in c.co_consts if hasattr(k, "co_lines"))
+    return lines
+
+
+def anchor_coverage(mod, tier: str, seed: int, budget_s: float = 45.0) -> dict:
+    """Run shards of the check in-process under sys.monitoring (LINE events, each location disabled after its first
+    hit) and report executed/executable lines of the library files the property is anchored in."""
+    prop_files = []
+    with open(os.path.join(VERIF, "properties.jsonl")) as fh:
+        for line in fh:
+            p = json.loads(line)
+            if p["id"] == mod.ID:
+                prop_files = p["anchors"]["files"]
+    mon = sys.monitoring
+    tool = mon.COVERAGE_ID
+    hits: dict[str, set[int]] = {}
+    root = os.path.realpath(REPO) + os.sep + "fuzzylite" + os.sep
+
+    def on_line(code, line):
+        fn = code.co_filename
+        if fn.startswith(root):
+            hits.setdefault(fn[len(os.path.realpath(REPO)) + 1:], set()).add(line)
+        return mon.DISABLE
+
+    mon.use_tool_id(tool, "vmc-anchor-coverage")
+    mon.register_callback(tool, mon.events.LINE, on_line)
+    mon.set_events(tool, mon.events.LINE)
+    shards = mod.plan(tier, seed)
+    t0 = time.time()
+    ran = 0
+    try:
+        step = max(1, len(shards) // 12)
+        for s in shards[::step] + shards:
+            if time.time() - t0 > budget_s:
+                break
+            try:
+                mod.run_shard(tier, seed, s)
+            except Exception:  # noqa: BLE001
+                pass
+            ran += 1
+    finally:
+        mon.set_events(tool, 0)
+        mon.register_callback(tool, mon.events.LINE, None)
+        mon.free_tool_id(tool)
+    out = {"shards_traced": ran, "files": {}}
+    for f in prop_files:
+        path = os.path.join(REPO, f)
+        if os.path.exists(path):
+            ex = executable_lines(path)
+            out["files"][f] = {"executed": len(hits.get(f, set()) & ex), "executable": len(ex)}
+    return out
+
+
+def run(check_id: str, tier: str, seed: int, workers: int, with_coverage: bool = False) -> int:
     t0 = time.time()
     mod = _load(check_id)
     prop = mod.ID
@@ -148,6 +210,8 @@ def run(check_id: str, tier: str, seed: int, workers: int) -> int:
         coverage["transitions"] = merged["transitions"]
         coverage["traces_validated_against_impl"] = merged["traces"]
     coverage.update(summary.get("coverage", {}))
+    if with_coverage:
+        coverage["anchor_lines"] = anchor_coverage(mod, tier, seed)
     if merged["extra"]:
         coverage["counters"] = dict(sorted(merged["extra"].items()))
     coverage["known_findings_seen"] = known_hits
@@ -227,13 +291,14 @@ def main(argv=None) -> int:
     ap.add_argument("tier", nargs="?", default=os.environ.get("VERIF_TIER", "quick"))
     ap.add_argument("--replay")
     ap.add_argument("--workers", type=int, default=int(os.environ.get("VERIF_WORKERS", "16")))
+    ap.add_argument("--coverage", action="store_true", help="also trace anchored library files (default in the thorough tier)")
     ns = ap.parse_args(argv)
     if ns.tier not in ("quick", "thorough"):
         ap.error("tier must be quick or thorough")
     seed = int(os.environ.get("VERIF_SEED", "0") or 0)
     if ns.replay:
         return replay(ns.check, ns.replay)
-    return run(ns.check, ns.tier, seed, ns.workers)
+    return run(ns.check, ns.tier, seed, ns.workers, ns.coverage or ns.tier == "thorough")
 
 
 if __name__ == "__main__":
